@@ -724,26 +724,28 @@ func init() {
 				}
 			}
 			// schedule half: Run / Restart / runTask under the engine's scheduler
-			rs = append(rs, HRun{Pkg: "./shovel", Fn: "ZZ_C20_Restart", Params: []int{0, 1, 60}, MaxPaths: 400000})
+			rs = append(rs, HRun{Pkg: "./shovel", Fn: "ZZ_C20_Restart", Params: []int{0, 1, 60}, MaxPaths: 400000, DeepenParam: 2, DeepenStep: 15})
 			if tier == "thorough" {
 				rs = append(rs, HRun{Pkg: "./shovel", Fn: "ZZ_C20_Restart", Params: []int{1, 1, 45}, MaxPaths: 400000},
 					HRun{Pkg: "./shovel", Fn: "ZZ_C20_Restart", Params: []int{0, 2, 60}, MaxPaths: 400000})
 			}
 			// restart sequences: idle manager, failed restart then a good one, two restarts in a row
-			rs = append(rs, HRun{Pkg: "./shovel", Fn: "ZZ_C20_Sequence", Params: []int{0, 0, 60, 2}, MaxPaths: 400000},
-				HRun{Pkg: "./shovel", Fn: "ZZ_C20_Sequence", Params: []int{1, 0, 60, 1}, MaxPaths: 400000},
-				HRun{Pkg: "./shovel", Fn: "ZZ_C20_Sequence", Params: []int{2, 0, 60, 1}, MaxPaths: 400000})
+			// (the bound counts scheduling points after the frozen set-up phase; if every
+			// path is cut at it the run is repeated with the bound raised by 15, twice at most)
+			rs = append(rs, HRun{Pkg: "./shovel", Fn: "ZZ_C20_Sequence", Params: []int{0, 0, 70, 2}, MaxPaths: 400000, DeepenParam: 2, DeepenStep: 15},
+				HRun{Pkg: "./shovel", Fn: "ZZ_C20_Sequence", Params: []int{1, 0, 55, 1}, MaxPaths: 400000, DeepenParam: 2, DeepenStep: 15},
+				HRun{Pkg: "./shovel", Fn: "ZZ_C20_Sequence", Params: []int{2, 0, 55, 1}, MaxPaths: 400000, DeepenParam: 2, DeepenStep: 15})
 			if tier == "thorough" {
-				rs = append(rs, HRun{Pkg: "./shovel", Fn: "ZZ_C20_Sequence", Params: []int{0, 0, 80, 4}, MaxPaths: 400000},
-					HRun{Pkg: "./shovel", Fn: "ZZ_C20_Sequence", Params: []int{1, 0, 70, 2}, MaxPaths: 400000},
-					HRun{Pkg: "./shovel", Fn: "ZZ_C20_Sequence", Params: []int{2, 0, 70, 2}, MaxPaths: 400000})
+				rs = append(rs, HRun{Pkg: "./shovel", Fn: "ZZ_C20_Sequence", Params: []int{0, 0, 80, 4}, MaxPaths: 400000, DeepenParam: 2, DeepenStep: 15},
+					HRun{Pkg: "./shovel", Fn: "ZZ_C20_Sequence", Params: []int{1, 0, 65, 2}, MaxPaths: 400000, DeepenParam: 2, DeepenStep: 15},
+					HRun{Pkg: "./shovel", Fn: "ZZ_C20_Sequence", Params: []int{2, 0, 65, 2}, MaxPaths: 400000, DeepenParam: 2, DeepenStep: 15})
 			}
 			return rs
 		},
 		Assumptions: []string{
 			"configuration half (ZZ_C20_Load): task list = enabled integrations x referenced sources, file wins a name clash, unknown source is a startup error, each task carries its source's settings and the reference's start/stop, context names equal the task's names",
 			"schedule half (ZZ_C20_Restart): the real Manager.Run/Restart/runTask with real tasks (loadTasks, Converge against the Postgres model and the honest node) run under the engine's scheduler: goroutines become engine threads, every synchronisation operation (mutex, channel send/receive/close, select, WaitGroup, sleep, goroutine start/end) is a scheduling point, the choice of the next runnable thread is an enumerated decision bounded by a preemption budget (0 quick, 1 thorough) and a bound on scheduling points per path (paths reaching it are cut, not counted as held); one restart is requested while the first generation runs; after Restart returns no task of the previous generation may issue a source call, the manager holds new tasks, no deadlock, no goroutine panic. Overlapping restarts and a restart during the first loadTasks are not explored; the background head pollers are cut",
-			"restart sequences (ZZ_C20_Sequence), same scheduler: (0) the first generation has no enabled integration and its Run has returned, an integration is stored and a restart requested; (1) a stored integration references an unknown source, Restart reports the error, the source is added and a second restart requested; (2) two restarts in a row while tasks run. The last restart must not panic, must load one task per pair, and whenever the harness looks afterwards (1-2 times, after sleeping) the new generation's Run must still hold the manager's lock (its tasks have no stop, so no runner may exit)",
+			"restart sequences (ZZ_C20_Sequence), same scheduler: (0) the first generation has no enabled integration and its Run has returned, an integration is stored and a restart requested; (1) a stored integration references an unknown source, Restart reports the error, the source is added and a second restart requested; (2) two restarts in a row while tasks run. In (1) and (2) the set-up (start-up and first restart) runs along ONE representative schedule (zzvrf.SchedFreeze: no enumerated decisions, points not counted) and enumeration starts at the last restart; a run in which every path is cut at the scheduling-point bound is repeated with the bound raised by 15 (twice at most) instead of being reported vacuous. The last restart must not panic, must load one task per pair, and whenever the harness looks afterwards (1-2 times, after sleeping) the new generation's Run must still hold the manager's lock (its tasks have no stop, so no runner may exit)",
 			"the two database readers config.Integrations / config.Sources are cut (engine redirect, native rename) and return the symbolic lists; pgp.Exec of NewTask, jrpc2.MustURL and gzhttp.Transport are cut",
 			"integration names over {a,b}, enabled flags, 1-2 source references over {s1,s2,missing}, source placement (file/db/clash) are case-split; batch size, start, stop, chain id are solver variables; an integration does not list the same source twice; names are distinct within the file and within the table",
 		},
